@@ -30,10 +30,12 @@ def lex_identifier(s: "Scanner") -> None:
 
 
 def lex_quoted_string(s: "Scanner") -> None:
+    # taken before a newline is consumed, which moves the scanner to the next line.
+    string_position = s.get_position()
     c = s.next()
     while c != "'":
         if c == "\n" or c is None:
-            raise ScannerException("Unterminated String", s.get_position())
+            raise ScannerException("Unterminated String", string_position)
 
         if c == "\\" and s.peek() == "'":
             s.next()
